@@ -54,6 +54,14 @@ ForceConstraint ==
     /\ NoTrailingEnv
     /\ nenv <= gen
     /\ (gen = 1 /\ run.pc # "idle" => ~run.wantForced)
+\* ... and what a forced run leaves behind: the LAST run is plain, the one before it forced (from whatever cache
+\* state the steps before produced; with MaxRuns = 2 the forced run is the very first run)
+ForceThenPlainConstraint ==
+    /\ NoTrailingEnv
+    /\ nenv <= gen
+    /\ (gen = MaxRuns /\ run.pc # "idle" => ~run.wantForced)
+    /\ (gen = MaxRuns - 1 /\ run.pc # "idle" => run.wantForced)
+    /\ (gen < MaxRuns - 1 /\ run.pc # "idle" => ~run.wantForced)
 ForceClasses == {"param_type"}
 FaultClasses == {"field_added"}
 
